@@ -258,6 +258,8 @@ Qed.
 
 End Facts2.
 
+Ltac acc_norm_in Hc := revert Hc; acc_norm; intro Hc.
+
 Ltac acc3_unfold := unfold rref, qgrant, qcanc, users, infl, rclosed, rmodel, qmodel, getr, getq in *.
 
 Section Step.
@@ -508,6 +510,71 @@ Proof.
     (* CFLk: the runner of a request whose finish token is in flight is registered *)
     exfalso. pose proof (cnt_ge (tokf q) _ _ _ Ep) as Gt. simpl in Gt. unfold eqn in Gt. rewrite Nat.eqb_refl in Gt.
     destruct (token_runner s IW I2 I q r Gt E) as [_ (rr & L & _)]. congruence.
+Qed.
+
+Lemma l3_grant_step : forall q x, getq s' q = Some x ->
+  (forall r, q_grant x = Some r -> q_replies x <> [] /\ rmodel s' r = Some (q_model x)) /\
+  (q_fin x = true -> q_grant x <> None /\ q_cancelled x = true).
+Proof.
+  pose proof (l3_grant s I) as A. fix_cfg c Hf. intros q' x' Hq.
+  destruct l as [sp|q0|m|d|t alt].
+  - step_cases H; unfold getq in *; simpl in *; apply nth_error_snoc in Hq; destruct Hq as [Hq|[-> ->]]; eauto;
+    simpl; split; intros; discriminate.
+  - step_cases H; unfold getq in *; simpl in *. apply nth_error_upd in Hq. destruct Hq as [(-> & -> & _)|[N Hq]]; eauto.
+    destruct (A _ _ E) as [A1 A2]. simpl. split; auto. intros Hfin. destruct (A2 Hfin). auto.
+  - step_cases H; simpl in *; eauto.
+  - step_cases H. unfold getq in *. rewrite tick_reqs in Hq. destruct (A _ _ Hq) as [A1 A2]. split; auto.
+    intros r G. destruct (A1 _ G). rewrite tick_rmodel. auto.
+  - unfold step in H. destruct (nth_error (thr s) t) as [p|] eqn:Ep; try discriminate.
+    destruct p; step_cases H; unfold getq, getr in *; simpl in *;
+    (* the request list is unchanged *)
+    try (destruct (A _ _ Hq) as [A1 A2]; split; auto; intros r'' G; destruct (A1 _ G) as [A3 A4]; split; auto;
+         acc_unfold; simpl in *; acc_norm; eqb_cases; auto; rewrite getf_none in A4 by lia; discriminate).
+    all: unfold setq, setr, goto, spawn in Hq |- *; simpl in Hq; apply nth_error_upd in Hq;
+      destruct Hq as [(<- & -> & _)|[N Hq]];
+      [ | destruct (A _ _ Hq) as [A1 A2]; split; auto; intros r'' G; destruct (A1 _ G) as [A3 A4]; split; auto;
+          acc_unfold; simpl in *; acc_norm; eqb_cases; auto ].
+    (* a reply that hands out runner r: r serves the request's model *)
+    all: try (match goal with
+      | Ep : nth_error (thr s) _ = Some _, E1 : nth_error (reqs s) ?q = Some ?r1 |- context [q_add_reply ?r1 (ROk ?r _)] =>
+        destruct (owner_nogrant s IW I q r1 _ _ Ep) as [G0 F0];
+        [simpl; unfold eqn; rewrite Nat.eqb_refl; reflexivity|exact E1|];
+        assert (M : exists m, qmodel s q = Some m /\ rmodel s r = Some m) by
+          (first [eapply (l3_pm s I); [exact Ep|reflexivity] | eapply (l3_lw s I); [exact Ep|reflexivity]]);
+        destruct M as (m0 & M1 & M2); unfold qmodel in M1; rewrite (getf_some _ _ _ _ _ E1) in M1; inv M1;
+        simpl; split;
+        [ intros r2 G; inv G; split; [destruct (q_replies r1); discriminate|];
+          acc_unfold; simpl in *; acc_norm; eqb_cases; auto
+        | rewrite F0; discriminate ]
+      end).
+    (* error replies and the consumption of the finish event keep the grant *)
+    all: destruct (A _ _ ltac:(eassumption)) as [A1 A2]; simpl; split;
+      try (intros r2 G; destruct (A1 _ G) as [A3 A4]; split;
+           [ try (destruct (q_replies _); discriminate); auto
+           | acc_unfold; simpl in *; acc_norm; eqb_cases; auto ]);
+      auto.
+    (* CFR sets the finished flag: the request holds a runner and was cancelled *)
+    all: intros _; pose proof (l3_canpc s I _ _ _ Ep eq_refl) as Cn; unfold qcanc in Cn;
+      erewrite getf_some in Cn by eassumption; split; auto;
+      match goal with
+      | Ep : nth_error (thr s) _ = Some (CFR ?q ?r), E : nth_error (runners s) ?r = Some ?r0, E0 : nth_error (reqs s) ?q = Some ?r1 |- _ =>
+        destruct (l3_cfr s I _ _ _ _ Ep eq_refl) as [C|C];
+        [ unfold qgrant in C; erewrite getf_some in C by eassumption; rewrite C; discriminate
+        | exfalso; opt_cases; match goal with EN : r_mu r0 = None |- _ => pose proof (mu_free_no_lwok s IM q r r0 E EN) end; lia ]
+      end.
+Qed.
+
+Lemma l3_closed_step : forall r, rclosed s' r = true -> rref s' r = 0%N.
+Proof.
+  pose proof (l3_closed s I) as A. fix_cfg c Hf. intros r' Hc.
+  destruct l as [sp|q0|m|d|t alt].
+  - step_cases H; acc3_unfold; simpl in *; eauto.
+  - step_cases H; acc3_unfold; simpl in *; eauto.
+  - step_cases H; acc3_unfold; simpl in *; eauto.
+  - step_cases H. rewrite tick_rclosed in Hc. rewrite tick_rref. eauto.
+  - unfold step in H. destruct (nth_error (thr s) t) as [p|] eqn:Ep; try discriminate.
+    destruct p; step_cases H; acc3_unfold; simpl in *; acc_norm_in Hc;
+    try (acc_norm; eqb_cases; simpl in *; auto; try congruence; fail).
 Qed.
 
 End Step.
